@@ -1,22 +1,23 @@
 (* Ghost-cost bounds (C08_alloc, C08_depth).
 
-   Allocation: every `with_capacity(n)` site of the decoders is either followed by a loop whose
-   every successful iteration consumes input (so the n * element-size bytes are paid for by the
-   bytes of the elements: at most KOK = 104 bytes of preallocation per input byte), or capped by
-   the remaining input (`n.min(buf.len())`, the repaired F4 sites: at most another 104 bytes per
-   remaining byte, only on the failing path).  On a failing path the vectors reserved for the
-   enclosing unfinished loops are not paid for by input: one u16-counted vector per nesting
-   level, a constant.
+   Allocation: every `with_capacity` site of the decoders requests `count.min(buf.len() / per)`
+   entries (commits 3ad5892, dba8b0a) and is followed by a loop over `count` elements.  On success the
+   reservation is paid for by the bytes of the elements (at most KOK = 104 bytes of reservation per
+   consumed byte); on a failing path the reservation is at most elem/per bytes per REMAINING byte, and
+   sites nest only through the type grammar (at most 130 levels of at most 16 bytes per byte) and the
+   column-spec vector (104 bytes per byte): KERR = 104 + 130 * 16 + 104 = 2288 bytes per input byte.
 
    [abound_k Ke S P p]: on success   alloc + P <= KOK * consumed          (P = unspent potential)
-                        on failure   alloc <= Ke * |input| + S
+                        on failure   alloc <= Ke * |input| + S            (S = 0 everywhere now)
                         always       depth <= DEPTH_LIMIT. *)
 From SV Require Import Base.Prelude Base.Bytes Model.FrameBase Model.FrameTypes Model.FrameResp
   Model.FrameCustom Proofs.FrameBase_proofs Proofs.FrameTypes_proofs Proofs.FrameResp_proofs.
 Open Scope N_scope.
 
 Definition KOK : N := 104.
-Definition KERR : N := 208.
+Definition TYPE_RATE : N := 16.
+Definition KTYPES : N := KOK + TYPE_RATE * N.of_nat TYPE_FUEL.      (* 2184 *)
+Definition KERR : N := KTYPES + SZ_COLSPEC.                          (* 2288 *)
 
 Definition abound_k (Ke S P : N) {A} (p : parser A) : Prop :=
   forall b, match p b with
@@ -165,39 +166,7 @@ Proof.
   destruct (repeat_f (Datatypes.S (length b)) p n b) as [[[v r]|e] c]; lia.
 Qed.
 
-(* `Vec::with_capacity(n)` ([a] bytes requested, a <= n * sz, a <= amax) followed by the n-element loop *)
-Lemma abound_prealloc S sz a amax n {A} (p : parser A) :
-  a <= n * sz -> a <= amax -> abound_k Ke S sz p ->
-  abound_k Ke (S + amax) 0 (bind (tick_alloc a) (fun _ => repeatS p n)).
-Proof.
-  intros Ha Hm Hp b. unfold bind, tick_alloc, repeatS. cbv beta iota.
-  pose proof (abound_repeat_f S sz p Hp (N.to_nat n) n b) as R.
-  destruct (repeat_f (N.to_nat n) p n b) as [[[v r]|e] c]; cbn [fst snd cadd c_alloc c_depth]; lia.
-Qed.
-
 End Generic.
-
-(* `Vec::with_capacity(count.min(buf.len() / per))` followed by the count-element loop: on the
-   failing path the capped reservation costs up to elem/per bytes per remaining byte more *)
-Lemma abound_capped S sz count per elem {A} (p : parser A) :
-  0 < per -> elem <= sz -> elem <= (KERR - KOK) * per -> abound_k KOK S sz p ->
-  abound_k KERR S 0 (bind (tick_alloc_capped count per elem) (fun _ => repeatN p count)).
-Proof.
-  intros Hper Hsz Hel Hp b. unfold bind, tick_alloc_capped, repeatN. cbv beta iota.
-  pose proof (abound_repeat_f KOK ltac:(lia) S sz p Hp (Datatypes.S (length b)) count b) as R.
-  assert (C1 : N.min count (lenN b / per) * elem <= count * sz).
-  { apply N.mul_le_mono; [lia|exact Hsz]. }
-  assert (C2 : N.min count (lenN b / per) * elem <= (KERR - KOK) * lenN b).
-  { assert (lenN b / per * per <= lenN b) by (rewrite N.mul_comm; apply N.mul_div_le; lia).
-    assert (N.min count (lenN b / per) <= lenN b / per) by lia.
-    set (q := lenN b / per) in *. set (m := N.min count q) in *. set (D := KERR - KOK) in *.
-    assert (m * elem <= q * (D * per)) by (apply N.mul_le_mono; assumption).
-    assert (q * (D * per) = D * (q * per)) by ring.
-    assert (D * (q * per) <= D * lenN b) by (apply N.mul_le_mono_l; assumption).
-    lia. }
-  destruct (repeat_f (Datatypes.S (length b)) p count b) as [[[v r]|e] c]; cbn [fst snd cadd c_alloc c_depth];
-    unfold KERR, KOK in *; lia.
-Qed.
 
 (* monad associativity (pointwise), to bring reservation + loop + continuation into shape *)
 Lemma cadd_assoc a b c : cadd (cadd a b) c = cadd a (cadd b c).
@@ -212,19 +181,43 @@ Qed.
 Lemma abound_ext Ke S P {A} (p q : parser A) : (forall b, p b = q b) -> abound_k Ke S P p -> abound_k Ke S P q.
 Proof. intros E H b. rewrite <- E. apply H. Qed.
 
-Lemma abound_prealloc_k Ke (HK : KOK <= Ke) S sz a amax n {A B} (p : parser A) (k : list A -> parser B) :
-  a <= n * sz -> a <= amax -> abound_k Ke S sz p -> (forall l, abound_k Ke (S + amax) 0 (k l)) ->
-  abound_k Ke (S + amax) 0 (bind (tick_alloc a) (fun _ => bind (repeatS p n) k)).
+(* a reservation of [g buf] bytes, at most [sz] per announced element and at most [r] per remaining
+   byte, followed by the loop over the announced elements (any fuel): on the failing path it costs
+   [r] bytes per byte more than the elements do *)
+Definition tick_fn (g : bytes -> N) : parser unit := fun b => (Ok (tt, b), mkCost (g b) 0).
+Lemma abound_tick_loop Ke (HK : KOK <= Ke) r S sz cnt {A} (g : bytes -> N) (F : bytes -> nat) (p : parser A) :
+  (forall b, g b <= cnt * sz /\ g b <= r * lenN b) -> abound_k Ke S sz p ->
+  abound_k (Ke + r) S 0 (bind (tick_fn g) (fun _ b => repeat_f (F b) p cnt b)).
 Proof.
-  intros Ha Hm Hp Hk.
-  apply (abound_ext _ _ _ (bind (bind (tick_alloc a) (fun _ => repeatS p n)) k)); [intros b; apply bind_assoc|].
-  apply abound_bind0; [exact HK|apply (abound_prealloc Ke HK S sz a amax n p Ha Hm Hp)|exact Hk].
+  intros Hg Hp b. unfold bind, tick_fn. cbv beta iota.
+  pose proof (abound_repeat_f Ke HK S sz p Hp (F b) cnt b) as R. destruct (Hg b) as [G1 G2].
+  destruct (repeat_f (F b) p cnt b) as [[[v r0]|e] c]; cbn [fst snd cadd c_alloc c_depth]; [lia|].
+  split; [nia|lia].
+Qed.
+Lemma abound_tick_loop_k Ke (HK : KOK <= Ke) r S sz cnt {A B} (g : bytes -> N) (F : bytes -> nat) (p : parser A)
+      (k : list A -> parser B) :
+  (forall b, g b <= cnt * sz /\ g b <= r * lenN b) -> abound_k Ke S sz p ->
+  (forall l, abound_k (Ke + r) S 0 (k l)) ->
+  abound_k (Ke + r) S 0 (bind (tick_fn g) (fun _ => bind (fun b => repeat_f (F b) p cnt b) k)).
+Proof.
+  intros Hg Hp Hk.
+  apply (abound_ext _ _ _ (bind (bind (tick_fn g) (fun _ b => repeat_f (F b) p cnt b)) k)); [intros b; apply bind_assoc|].
+  apply abound_bind0; [lia|apply (abound_tick_loop Ke HK r S sz cnt g F p Hg Hp)|exact Hk].
 Qed.
 
-(* ---- the readers of FrameBase ------------------------------------------------------------------- *)
-Lemma u16_le n : u16 n <= n /\ u16 n <= 65535.
-Proof. unfold u16. lia. Qed.
-
+(* the two shapes of reservation *)
+Lemma capped_bounds count per elem sz r b :
+  0 < per -> elem <= sz -> elem <= r * per ->
+  capped count per b * elem <= count * sz /\ capped count per b * elem <= r * lenN b.
+Proof.
+  intros Hper Hsz Hr. rewrite capped_eq by exact Hper. split.
+  - apply N.mul_le_mono; [lia|exact Hsz].
+  - assert (lenN b / per * per <= lenN b) by (rewrite N.mul_comm; apply N.mul_div_le; lia).
+    set (q := lenN b / per) in *. set (m := N.min count q).
+    assert (m * elem <= q * (r * per)) by (apply N.mul_le_mono; [unfold m; lia|exact Hr]).
+    assert (q * (r * per) = r * (q * per)) by ring.
+    assert (r * (q * per) <= r * lenN b) by (apply N.mul_le_mono_l; assumption). lia.
+Qed.
 (* hashbrown: at most 4 buckets per requested entry *)
 Lemma hm_buckets_le n : 1 <= n -> hm_buckets n <= 4 * n.
 Proof.
@@ -236,64 +229,99 @@ Proof.
   { rewrite <- N.pow_succ_r'. f_equal. assert (0 < N.log2_up (n * 8 / 7)) by (apply N.log2_up_pos; lia). lia. }
   assert (n * 8 / 7 * 7 <= n * 8) by (rewrite N.mul_comm; apply N.mul_div_le; lia). lia.
 Qed.
-Lemma hm_alloc_le n e : hm_alloc (u16 n) e <= n * (4 * (e + 1) + 16) /\ hm_alloc (u16 n) e <= 65535 * (4 * (e + 1) + 16).
+Lemma hm_alloc_le m e : hm_alloc m e <= m * (4 * (e + 1) + 16).
 Proof.
-  destruct (u16_le n) as [U1 U2]. unfold hm_alloc. destruct (u16 n =? 0) eqn:E; [lia|]. apply N.eqb_neq in E.
-  pose proof (hm_buckets_le (u16 n) ltac:(lia)). nia.
+  unfold hm_alloc. destruct (m =? 0) eqn:E; [lia|]. apply N.eqb_neq in E.
+  pose proof (hm_buckets_le m ltac:(lia)). nia.
+Qed.
+Lemma hm_capped_bounds count per e r b :
+  0 < per -> 4 * (e + 1) + 16 <= r * per ->
+  hm_alloc (capped count per b) e <= count * (4 * (e + 1) + 16) /\ hm_alloc (capped count per b) e <= r * lenN b.
+Proof.
+  intros Hper Hr. pose proof (hm_alloc_le (capped count per b) e) as H.
+  destruct (capped_bounds count per (4 * (e + 1) + 16) (4 * (e + 1) + 16) r b Hper ltac:(lia) Hr) as [A B]. lia.
 Qed.
 
+Lemma abound_capped_S Ke (HK : KOK <= Ke) r S sz cnt per elem {A B} (p : parser A) (k : list A -> parser B) :
+  0 < per -> elem <= sz -> elem <= r * per -> abound_k Ke S sz p -> (forall l, abound_k (Ke + r) S 0 (k l)) ->
+  abound_k (Ke + r) S 0 (bind (tick_alloc_capped cnt per elem) (fun _ => bind (repeatS p cnt) k)).
+Proof.
+  intros Hper Hsz Hr Hp Hk.
+  apply (abound_tick_loop_k Ke HK r S sz cnt (fun b => capped cnt per b * elem) (fun _ => N.to_nat cnt) p k); try assumption.
+  intros b. apply capped_bounds; assumption.
+Qed.
+Lemma abound_capped_S0 Ke (HK : KOK <= Ke) r S sz cnt per elem {A} (p : parser A) :
+  0 < per -> elem <= sz -> elem <= r * per -> abound_k Ke S sz p ->
+  abound_k (Ke + r) S 0 (bind (tick_alloc_capped cnt per elem) (fun _ => repeatS p cnt)).
+Proof.
+  intros Hper Hsz Hr Hp.
+  apply (abound_tick_loop Ke HK r S sz cnt (fun b => capped cnt per b * elem) (fun _ => N.to_nat cnt) p); try assumption.
+  intros b. apply capped_bounds; assumption.
+Qed.
+Lemma abound_capped_N Ke (HK : KOK <= Ke) r S sz cnt per elem {A} (p : parser A) :
+  0 < per -> elem <= sz -> elem <= r * per -> abound_k Ke S sz p ->
+  abound_k (Ke + r) S 0 (bind (tick_alloc_capped cnt per elem) (fun _ => repeatN p cnt)).
+Proof.
+  intros Hper Hsz Hr Hp.
+  apply (abound_tick_loop Ke HK r S sz cnt (fun b => capped cnt per b * elem) (fun b => Datatypes.S (length b)) p); try assumption.
+  intros b. apply capped_bounds; assumption.
+Qed.
+Lemma abound_hm_capped_S Ke (HK : KOK <= Ke) r S cnt per e {A B} (p : parser A) (k : list A -> parser B) :
+  0 < per -> 4 * (e + 1) + 16 <= r * per -> abound_k Ke S (4 * (e + 1) + 16) p -> (forall l, abound_k (Ke + r) S 0 (k l)) ->
+  abound_k (Ke + r) S 0 (bind (tick_hm_capped cnt per e) (fun _ => bind (repeatS p cnt) k)).
+Proof.
+  intros Hper Hr Hp Hk.
+  apply (abound_tick_loop_k Ke HK r S (4 * (e + 1) + 16) cnt (fun b => hm_alloc (capped cnt per b) e) (fun _ => N.to_nat cnt) p k);
+    try assumption.
+  intros b. apply hm_capped_bounds; assumption.
+Qed.
+
+(* ---- the readers of FrameBase ------------------------------------------------------------------- *)
 Definition SZ_PAYLOAD_SLOT : N := 4 * (SZ_PAYLOAD_ENTRY + 1) + 16.    (* 244 *)
 Definition SZ_MULTIMAP_SLOT : N := 4 * (SZ_MULTIMAP_ENTRY + 1) + 16.  (* 212 *)
-Definition S_STRLIST : N := 65535 * SZ_STRING.
-Definition S_PAYLOAD : N := 65535 * SZ_PAYLOAD_SLOT.
-Definition S_MULTIMAP : N := S_STRLIST + 65535 * SZ_MULTIMAP_SLOT.
+Definition K_STRLIST : N := KOK + 12.
+Definition K_MAPS : N := K_STRLIST + 53.
+
+Lemma HK0 : KOK <= KOK. Proof. lia. Qed.
+
+Lemma abound_read_string_list : abound_k K_STRLIST 0 (2 * KOK) read_string_list.
+Proof.
+  unfold read_string_list. apply abound_bind0; [unfold K_STRLIST; lia|apply abound_read_short; unfold K_STRLIST; lia|intros len].
+  apply (abound_capped_S0 KOK HK0 12 0 SZ_STRING len 2 SZ_STRING); [lia|lia|unfold SZ_STRING; lia|].
+  eapply abound_weaken; [reflexivity|reflexivity| |apply abound_read_string; exact HK0]. unfold SZ_STRING, KOK. lia.
+Qed.
+
+Lemma abound_read_bytes_map : abound_k K_MAPS 0 (2 * KOK) read_bytes_map.
+Proof.
+  unfold read_bytes_map. apply abound_bind0; [unfold K_MAPS, K_STRLIST; lia|apply abound_read_short; unfold K_MAPS, K_STRLIST; lia|intros len].
+  eapply abound_weaken; [| | |apply (abound_hm_capped_S KOK HK0 41 0 len 6 SZ_PAYLOAD_ENTRY)].
+  - unfold K_MAPS, K_STRLIST. lia.
+  - reflexivity.
+  - lia.
+  - lia.
+  - unfold SZ_PAYLOAD_ENTRY. lia.
+  - eapply abound_weaken; [reflexivity|reflexivity| |apply (abound_bind KOK 0 0 (2 * KOK) (4 * KOK)); [exact HK0|apply abound_read_string; exact HK0|intros k]].
+    + unfold SZ_PAYLOAD_ENTRY, KOK. lia.
+    + apply abound_bind0; [exact HK0|apply abound_read_bytes; exact HK0|intros; apply abound_ret].
+  - intros l. apply abound_ret.
+Qed.
+
+Lemma abound_read_string_multimap : abound_k K_MAPS 0 (2 * KOK) read_string_multimap.
+Proof.
+  assert (HKS : KOK <= K_STRLIST) by (unfold K_STRLIST; lia).
+  unfold read_string_multimap. apply abound_bind0; [unfold K_MAPS, K_STRLIST; lia|apply abound_read_short; unfold K_MAPS, K_STRLIST; lia|intros len].
+  apply (abound_hm_capped_S K_STRLIST HKS 53 0 len 4 SZ_MULTIMAP_ENTRY).
+  - lia.
+  - unfold SZ_MULTIMAP_ENTRY. lia.
+  - eapply abound_weaken; [reflexivity|reflexivity| |apply (abound_bind K_STRLIST 0 0 (2 * KOK) (2 * KOK)); [exact HKS|apply abound_read_string; exact HKS|intros k]].
+    + unfold SZ_MULTIMAP_ENTRY, KOK. lia.
+    + apply abound_bind0; [exact HKS|apply abound_read_string_list|intros; apply abound_ret].
+  - intros l. apply abound_ret.
+Qed.
 
 Section Readers.
 Variable Ke : N.
 Hypothesis HK : KOK <= Ke.
-
-Lemma abound_read_string_list : abound_k Ke S_STRLIST (2 * KOK) read_string_list.
-Proof.
-  unfold read_string_list. apply abound_bind0; [exact HK|apply abound_read_short; exact HK|intros len].
-  destruct (u16_le len). eapply abound_weaken; [reflexivity| |reflexivity|].
-  2:{ apply (abound_prealloc Ke HK 0 SZ_STRING (u16 len * SZ_STRING) S_STRLIST len read_string).
-      - nia.
-      - unfold S_STRLIST. nia.
-      - eapply abound_weaken; [reflexivity|reflexivity| |apply abound_read_string; exact HK]. unfold SZ_STRING, KOK. lia. }
-  lia.
-Qed.
-
-Lemma abound_read_bytes_map : abound_k Ke S_PAYLOAD (2 * KOK) read_bytes_map.
-Proof.
-  unfold read_bytes_map. apply abound_bind0; [exact HK|apply abound_read_short; exact HK|intros len].
-  destruct (hm_alloc_le len SZ_PAYLOAD_ENTRY) as [H1 H2].
-  apply (abound_prealloc_k Ke HK 0 SZ_PAYLOAD_SLOT _ S_PAYLOAD).
-  - exact H1.
-  - exact H2.
-  - (* an entry: [string] key (2 bytes at least) and [bytes] value (4 at least) *)
-    eapply abound_weaken; [reflexivity| | |apply (abound_bind Ke 0 0 (2 * KOK) (4 * KOK)); [exact HK|apply abound_read_string; exact HK|intros k]].
-    + lia.
-    + unfold SZ_PAYLOAD_SLOT, SZ_PAYLOAD_ENTRY, KOK. lia.
-    + apply abound_bind0; [exact HK|apply abound_read_bytes; exact HK|intros; apply abound_ret].
-  - intros l. apply abound_ret.
-Qed.
-
-Lemma abound_read_string_multimap : abound_k Ke S_MULTIMAP (2 * KOK) read_string_multimap.
-Proof.
-  unfold read_string_multimap. apply abound_bind0; [exact HK|apply abound_read_short; exact HK|intros len].
-  destruct (hm_alloc_le len SZ_MULTIMAP_ENTRY) as [H1 H2].
-  eapply abound_weaken; [reflexivity| |reflexivity|
-    apply (abound_prealloc_k Ke HK S_STRLIST SZ_MULTIMAP_SLOT _ (65535 * SZ_MULTIMAP_SLOT))].
-  - unfold S_MULTIMAP. lia.
-  - exact H1.
-  - exact H2.
-  - eapply abound_weaken; [reflexivity| | |apply (abound_bind Ke 0 S_STRLIST (2 * KOK) (2 * KOK)); [exact HK|apply abound_read_string; exact HK|intros k]].
-    + lia.
-    + unfold SZ_MULTIMAP_SLOT, SZ_MULTIMAP_ENTRY, KOK. lia.
-    + apply abound_bind0; [exact HK|apply abound_read_string_list|intros; apply abound_ret].
-  - intros l. apply abound_ret.
-Qed.
-
 Lemma abound_read_inet S : abound_k Ke S KOK read_inet.
 Proof.
   unfold read_inet. apply abound_bind0; [exact HK|apply abound_read_u8; exact HK|intros len].
@@ -310,33 +338,33 @@ Qed.
 End Readers.
 
 (* ---- the type grammar and the column specs ------------------------------------------------------- *)
-Definition S_LEVEL : N := 65535 * SZ_UDT_FIELD.
-Definition S_TYPES : N := N.of_nat TYPE_FUEL * S_LEVEL.
-
 Section WithCustom.
 Variable custom : custom_parser.
 Hypothesis custom_depth : forall s, snd (custom s) <= MAX_CUSTOM_TYPE_NESTING_DEPTH.
 
-Lemma abound_custom_step depth s S :
-  depth <= MAX_TYPE_NESTING_DEPTH -> abound_k KOK S 0 (custom_step custom depth s).
+Lemma abound_custom_step Ke depth s S :
+  depth <= MAX_TYPE_NESTING_DEPTH -> abound_k Ke S 0 (custom_step custom depth s).
 Proof.
   intros Hd b. unfold custom_step. pose proof (custom_depth s) as D.
   unfold MAX_CUSTOM_TYPE_NESTING_DEPTH, MAX_TYPE_NESTING_DEPTH, DEPTH_LIMIT in *.
   destruct (custom s) as [[t|e] d]; cbn [snd c_alloc c_depth] in *; lia.
 Qed.
 
+(* each level of nesting adds at most TYPE_RATE = 16 bytes per remaining byte on the failing path *)
 Lemma abound_deser_type_f : forall fuel depth,
-  abound_k KOK (N.of_nat fuel * S_LEVEL) SZ_UDT_FIELD (deser_type_f custom fuel depth).
+  abound_k (KOK + TYPE_RATE * N.of_nat fuel) 0 SZ_UDT_FIELD (deser_type_f custom fuel depth).
 Proof.
-  assert (HK : KOK <= KOK) by lia.
   induction fuel as [|f IH]; intros depth; rewrite deser_type_f_unfold; [apply abound_fail|].
   destruct (MAX_TYPE_NESTING_DEPTH <? depth) eqn:Ed; [apply abound_fail|]. apply N.ltb_ge in Ed.
-  set (SS := N.of_nat (S f) * S_LEVEL).
-  assert (HS : N.of_nat f * S_LEVEL + S_LEVEL = SS) by (unfold SS; rewrite Nat2N.inj_succ; lia).
-  assert (IH' : forall d, abound_k KOK SS SZ_UDT_FIELD (deser_type_f custom f d)).
-  { intros d. eapply abound_weaken; [reflexivity| |reflexivity|apply IH]. lia. }
+  set (KI := KOK + TYPE_RATE * N.of_nat f) in *.
+  set (KE := KOK + TYPE_RATE * N.of_nat (S f)).
+  assert (HKE : KE = KI + TYPE_RATE) by (unfold KE, KI; rewrite Nat2N.inj_succ; lia).
+  assert (HKI : KOK <= KI) by (unfold KI; lia).
+  assert (HK : KOK <= KE) by lia.
+  assert (IH' : forall d, abound_k KE 0 SZ_UDT_FIELD (deser_type_f custom f d)).
+  { intros d. eapply abound_weaken; [|reflexivity|reflexivity|apply IH]. lia. }
   apply abound_bind_r; [exact HK|apply abound_tick_depth; unfold MAX_TYPE_NESTING_DEPTH, DEPTH_LIMIT in *; lia|intros _].
-  apply (abound_bind0w KOK SS SZ_UDT_FIELD (2 * KOK)); [exact HK|unfold SZ_UDT_FIELD, KOK; lia|apply abound_read_short; exact HK|intros id].
+  apply (abound_bind0w KE 0 SZ_UDT_FIELD (2 * KOK)); [exact HK|unfold SZ_UDT_FIELD, KOK; lia|apply abound_read_short; exact HK|intros id].
   repeat apply abound_if.
   - apply abound_bind0; [exact HK|apply abound_drop with (P := 2 * KOK); apply abound_read_string; exact HK|intros s].
     apply abound_custom_step. exact Ed.
@@ -347,25 +375,21 @@ Proof.
   - apply abound_bind0; [exact HK|apply abound_drop with (P := 2 * KOK); apply abound_read_string; exact HK|intros ks].
     apply abound_bind0; [exact HK|apply abound_drop with (P := 2 * KOK); apply abound_read_string; exact HK|intros nm].
     apply abound_bind0; [exact HK|apply abound_drop with (P := 2 * KOK); apply abound_read_short; exact HK|intros n].
-    destruct (u16_le n). rewrite <- HS.
-    apply (abound_prealloc_k KOK HK (N.of_nat f * S_LEVEL) SZ_UDT_FIELD _ S_LEVEL).
-    + nia.
-    + unfold S_LEVEL. nia.
-    + apply abound_bind_r; [exact HK|apply abound_drop with (P := 2 * KOK); apply abound_read_string; exact HK|intros fname].
-      apply abound_bind0; [exact HK|apply IH|intros; apply abound_ret].
-    + intros l. apply abound_ret.
+    rewrite HKE.
+    apply (abound_capped_S KI HKI TYPE_RATE 0 SZ_UDT_FIELD n 4 SZ_UDT_FIELD); [lia|lia|unfold SZ_UDT_FIELD, TYPE_RATE; lia| |intros; apply abound_ret].
+    apply abound_bind_r; [exact HKI|apply abound_drop with (P := 2 * KOK); apply abound_read_string; exact HKI|intros fname].
+    apply abound_bind0; [exact HKI|apply IH|intros; apply abound_ret].
   - apply abound_bind0; [exact HK|apply abound_drop with (P := 2 * KOK); apply abound_read_short; exact HK|intros n].
-    destruct (u16_le n). rewrite <- HS.
-    apply (abound_prealloc_k KOK HK (N.of_nat f * S_LEVEL) SZ_COLTYPE _ S_LEVEL).
-    + nia.
-    + unfold S_LEVEL, SZ_COLTYPE, SZ_UDT_FIELD. nia.
-    + eapply abound_weaken; [reflexivity|reflexivity| |apply IH]. unfold SZ_COLTYPE, SZ_UDT_FIELD. lia.
-    + intros l. apply abound_ret.
+    rewrite HKE.
+    apply (abound_capped_S KI HKI TYPE_RATE 0 SZ_COLTYPE n 2 SZ_COLTYPE); [lia|lia|unfold SZ_COLTYPE, TYPE_RATE; lia| |intros; apply abound_ret].
+    eapply abound_weaken; [reflexivity|reflexivity| |apply IH]. unfold SZ_COLTYPE, SZ_UDT_FIELD. lia.
   - destruct (native_of_id id); [apply abound_ret|apply abound_fail].
 Qed.
 
-Lemma abound_deser_type : abound_k KOK S_TYPES SZ_UDT_FIELD (deser_type custom).
+Lemma abound_deser_type : abound_k KTYPES 0 SZ_UDT_FIELD (deser_type custom).
 Proof. apply abound_deser_type_f. Qed.
+
+Lemma HKT : KOK <= KTYPES. Proof. unfold KTYPES. lia. Qed.
 
 Lemma abound_deser_table_spec Ke S : KOK <= Ke -> abound_k Ke S 0 deser_table_spec.
 Proof.
@@ -375,25 +399,25 @@ Proof.
   apply abound_ret.
 Qed.
 
-Lemma abound_deser_col_spec g : abound_k KOK S_TYPES SZ_COLSPEC (deser_col_spec custom g).
+Lemma abound_deser_col_spec g : abound_k KTYPES 0 SZ_COLSPEC (deser_col_spec custom g).
 Proof.
-  assert (HK : KOK <= KOK) by lia. unfold deser_col_spec.
+  pose proof HKT as HK. unfold deser_col_spec.
   apply abound_bind_r; [exact HK|destruct g; [apply abound_ret|apply abound_deser_table_spec; exact HK]|intros ts].
-  apply (abound_bind0w KOK S_TYPES SZ_COLSPEC (2 * KOK)); [exact HK|unfold SZ_COLSPEC, KOK; lia|apply abound_read_string; exact HK|intros nm].
+  apply (abound_bind0w KTYPES 0 SZ_COLSPEC (2 * KOK)); [exact HK|unfold SZ_COLSPEC, KOK; lia|apply abound_read_string; exact HK|intros nm].
   apply abound_bind0; [exact HK|apply abound_drop with (P := SZ_UDT_FIELD); apply abound_deser_type|intros; apply abound_ret].
 Qed.
 
-Lemma abound_deser_col_specs g n : abound_k KERR S_TYPES 0 (deser_col_specs custom g n).
+Lemma abound_deser_col_specs g n : abound_k KERR 0 0 (deser_col_specs custom g n).
 Proof.
-  unfold deser_col_specs. apply (abound_capped S_TYPES SZ_COLSPEC); [lia|lia|unfold SZ_COLSPEC, KERR, KOK; lia|].
-  apply abound_deser_col_spec.
+  unfold deser_col_specs, KERR.
+  apply (abound_capped_N KTYPES HKT SZ_COLSPEC 0 SZ_COLSPEC n 1 SZ_COLSPEC); [lia|lia|lia|apply abound_deser_col_spec].
 Qed.
 
-(* ---- response bodies: everything at the failing-path rate KERR with one constant ------------------ *)
-Definition S_ALL : N := S_TYPES + S_MULTIMAP + S_PAYLOAD.
-Definition AB {A} (p : parser A) : Prop := abound_k KERR S_ALL 0 p.
+(* ---- response bodies: everything at the failing-path rate KERR ------------------------------------- *)
+Definition AB {A} (p : parser A) : Prop := abound_k KERR 0 0 p.
 
-Lemma HKE : KOK <= KERR. Proof. unfold KOK, KERR. lia. Qed.
+Lemma KERR_value : KERR = 2288. Proof. reflexivity. Qed.
+Lemma HKE : KOK <= KERR. Proof. rewrite KERR_value. unfold KOK. lia. Qed.
 Lemma AB_ret {A} (a : A) : AB (ret a). Proof. apply abound_ret. Qed.
 Lemma AB_fail {A} e : AB (@fail A e). Proof. apply abound_fail. Qed.
 Lemma AB_bind {A B} (p : parser A) (f : A -> parser B) : AB p -> (forall a, AB (f a)) -> AB (bind p f).
@@ -403,42 +427,42 @@ Proof. apply abound_pmap. apply HKE. Qed.
 Lemma AB_if {A} (c : bool) (p q : parser A) : AB p -> AB q -> AB (if c then p else q).
 Proof. apply abound_if. Qed.
 Lemma AB_repeatS {A} (p : parser A) n : AB p -> AB (repeatS p n).
-Proof. apply (abound_repeatS KERR HKE S_ALL 0). Qed.
+Proof. apply (abound_repeatS KERR HKE 0 0). Qed.
 Lemma AB_repeatN {A} (p : parser A) n : AB p -> AB (repeatN p n).
-Proof. apply (abound_repeatN KERR HKE S_ALL 0). Qed.
-Lemma AB_of Ke S P {A} (p : parser A) : Ke <= KERR -> S <= S_ALL -> abound_k Ke S P p -> AB p.
-Proof. intros. eapply abound_weaken; [eassumption|eassumption| |eassumption]. lia. Qed.
+Proof. apply (abound_repeatN KERR HKE 0 0). Qed.
+Lemma AB_of Ke P {A} (p : parser A) : Ke <= KERR -> abound_k Ke 0 P p -> AB p.
+Proof. intros. eapply abound_weaken; [eassumption|reflexivity| |eassumption]. lia. Qed.
 
-Lemma AB_read_u8 : AB read_u8. Proof. eapply AB_of; [reflexivity| |apply (abound_read_u8 KERR HKE 0)]; lia. Qed.
-Lemma AB_read_be k : AB (read_be k). Proof. eapply AB_of; [reflexivity| |apply (abound_read_be KERR 0)]; lia. Qed.
-Lemma AB_read_raw k : AB (read_raw k). Proof. eapply AB_of; [reflexivity| |apply (abound_read_raw KERR 0)]; lia. Qed.
+Lemma AB_read_u8 : AB read_u8. Proof. eapply AB_of; [reflexivity|apply (abound_read_u8 KERR HKE 0)]. Qed.
+Lemma AB_read_be k : AB (read_be k). Proof. eapply AB_of; [reflexivity|apply (abound_read_be KERR 0)]. Qed.
+Lemma AB_read_raw k : AB (read_raw k). Proof. eapply AB_of; [reflexivity|apply (abound_read_raw KERR 0)]. Qed.
 Lemma AB_read_short : AB read_short. Proof. apply AB_read_be. Qed.
-Lemma AB_read_int : AB read_int. Proof. eapply AB_of; [reflexivity| |apply (abound_read_int KERR HKE 0)]; lia. Qed.
+Lemma AB_read_int : AB read_int. Proof. eapply AB_of; [reflexivity|apply (abound_read_int KERR HKE 0)]. Qed.
 Lemma AB_read_int_length : AB read_int_length.
-Proof. eapply AB_of; [reflexivity| |apply (abound_read_int_length KERR HKE 0)]; lia. Qed.
+Proof. eapply AB_of; [reflexivity|apply (abound_read_int_length KERR HKE 0)]. Qed.
 Lemma AB_read_string : AB read_string.
-Proof. eapply AB_of; [reflexivity| |apply (abound_read_string KERR HKE 0)]; lia. Qed.
+Proof. eapply AB_of; [reflexivity|apply (abound_read_string KERR HKE 0)]. Qed.
 Lemma AB_read_short_bytes : AB read_short_bytes.
-Proof. eapply AB_of; [reflexivity| |apply (abound_read_short_bytes KERR HKE 0)]; lia. Qed.
+Proof. eapply AB_of; [reflexivity|apply (abound_read_short_bytes KERR HKE 0)]. Qed.
 Lemma AB_read_bytes : AB read_bytes.
-Proof. eapply AB_of; [reflexivity| |apply (abound_read_bytes KERR HKE 0)]; lia. Qed.
+Proof. eapply AB_of; [reflexivity|apply (abound_read_bytes KERR HKE 0)]. Qed.
 Lemma AB_read_bytes_opt : AB read_bytes_opt.
-Proof. eapply AB_of; [reflexivity| |apply (abound_read_bytes_opt KERR HKE 0)]; lia. Qed.
+Proof. eapply AB_of; [reflexivity|apply (abound_read_bytes_opt KERR HKE 0)]. Qed.
 Lemma AB_read_string_list : AB read_string_list.
-Proof. eapply AB_of; [reflexivity| |apply (abound_read_string_list KERR HKE)]. unfold S_ALL, S_MULTIMAP. lia. Qed.
+Proof. eapply AB_of; [|apply abound_read_string_list]. rewrite KERR_value. unfold K_STRLIST, KOK. lia. Qed.
 Lemma AB_read_bytes_map : AB read_bytes_map.
-Proof. eapply AB_of; [reflexivity| |apply (abound_read_bytes_map KERR HKE)]. unfold S_ALL. lia. Qed.
+Proof. eapply AB_of; [|apply abound_read_bytes_map]. rewrite KERR_value. unfold K_MAPS, K_STRLIST, KOK. lia. Qed.
 Lemma AB_read_string_multimap : AB read_string_multimap.
-Proof. eapply AB_of; [reflexivity| |apply (abound_read_string_multimap KERR HKE)]. unfold S_ALL. lia. Qed.
+Proof. eapply AB_of; [|apply abound_read_string_multimap]. rewrite KERR_value. unfold K_MAPS, K_STRLIST, KOK. lia. Qed.
 Lemma AB_read_uuid : AB read_uuid. Proof. apply AB_read_raw. Qed.
 Lemma AB_read_inet : AB read_inet.
-Proof. eapply AB_of; [reflexivity| |apply (abound_read_inet KERR HKE 0)]; lia. Qed.
+Proof. eapply AB_of; [reflexivity|apply (abound_read_inet KERR HKE 0)]. Qed.
 Lemma AB_read_consistency : AB read_consistency.
-Proof. eapply AB_of; [reflexivity| |apply (abound_read_consistency KERR HKE 0)]; lia. Qed.
+Proof. eapply AB_of; [reflexivity|apply (abound_read_consistency KERR HKE 0)]. Qed.
 Lemma AB_deser_table_spec : AB deser_table_spec.
-Proof. apply (abound_deser_table_spec KERR S_ALL HKE). Qed.
+Proof. apply (abound_deser_table_spec KERR 0 HKE). Qed.
 Lemma AB_deser_col_specs g n : AB (deser_col_specs custom g n).
-Proof. eapply AB_of; [reflexivity| |apply abound_deser_col_specs]. unfold S_ALL. lia. Qed.
+Proof. apply abound_deser_col_specs. Qed.
 Lemma AB_tick_alloc_capped_pk pkc {B} (k : list N -> parser B) :
   (forall l, AB (k l)) ->
   AB (bind (tick_alloc_capped pkc 2 SZ_PKINDEX) (fun _ => bind (repeatN read_short pkc) k)).
@@ -447,12 +471,12 @@ Proof.
   apply (abound_ext _ _ _ (bind (bind (tick_alloc_capped pkc 2 SZ_PKINDEX) (fun _ => repeatN read_short pkc)) k));
     [intros b; apply bind_assoc|].
   apply AB_bind; [|exact Hk].
-  eapply AB_of; [reflexivity| |apply (abound_capped 0 (2 * KOK) pkc 2 SZ_PKINDEX read_short)].
-  - lia.
+  eapply AB_of; [|apply (abound_capped_N KOK HK0 2 0 (2 * KOK) pkc 2 SZ_PKINDEX read_short)].
+  - rewrite KERR_value. unfold KOK. lia.
   - lia.
   - unfold SZ_PKINDEX, KOK. lia.
-  - unfold SZ_PKINDEX, KERR, KOK. lia.
-  - apply abound_read_short. lia.
+  - unfold SZ_PKINDEX. lia.
+  - apply abound_read_short. exact HK0.
 Qed.
 
 #[local] Hint Resolve AB_ret AB_fail AB_read_u8 AB_read_be AB_read_raw AB_read_short AB_read_int AB_read_int_length
